@@ -21,6 +21,11 @@ type Action struct {
 	Expand bool
 	Custom func(t *Trans) bool // optional: property-specific transition (returns false if disabled)
 	Macro  string              // "epoch": run blocks until the validation-finishing block is in
+	Script []Action            // run these actions in sequence (every inner block runs the hooks)
+	// MaxPath > 0 enables the action only in states reached by fewer than MaxPath actions
+	MaxPath int
+	// When, if set, enables the action only in states whose key contains one of these substrings (e.g. " per=2 ")
+	When []string
 }
 
 // Trans describes one transition while it is being executed.
@@ -116,6 +121,33 @@ func (m *Model) Init(scn int) *chainmc.State {
 
 func (m *Model) Step(scn int, st *chainmc.State, ai int, c *chainmc.Ctx) *chainmc.State {
 	a := m.Acts[ai]
+	return m.run(scn, st, a, c)
+}
+
+func (m *Model) run(scn int, st *chainmc.State, a Action, c *chainmc.Ctx) *chainmc.State {
+	if a.MaxPath > 0 && len(c.Path) >= a.MaxPath {
+		return nil
+	}
+	if len(a.When) > 0 {
+		ok := false
+		for _, w := range a.When {
+			if strings.Contains(st.Aux["key"], w) {
+				ok = true
+			}
+		}
+		if !ok {
+			return nil
+		}
+	}
+	if len(a.Script) > 0 {
+		cur := st
+		for _, sa := range a.Script {
+			if cur = m.run(scn, cur, sa, c); cur == nil {
+				return nil
+			}
+		}
+		return cur
+	}
 	if a.Macro == "" {
 		return m.oneBlock(scn, st, a, c)
 	}
@@ -281,6 +313,39 @@ func RichScenario() (string, replica.Opts, [][]string) {
 	}
 }
 
+// CeremonyScenario: G2 with a Verified god that authored three flips, the first validation close.
+func CeremonyScenario() (string, replica.Opts, [][]string) {
+	o := world.GenesisG2()
+	o.WithCeremony = true
+	o.FirstCeremonyTime = world.T0 + 400
+	a := o.Alloc[world.A(world.G)]
+	a.State = 3 // Verified
+	a.Stake = replica.Dna(500)
+	o.Alloc[world.A(world.G)] = a
+	return "G2-ceremony(god verified, 3 flips)", o, [][]string{
+		{"submitFlip G 0", "submitFlip G 1", "online V1", "online V2"},
+		{"submitFlip G 2"},
+	}
+}
+
+// FullCeremony returns a scripted action that runs a whole validation with the given
+// participants (hash in the short session, short+long+evidence in the long session, then
+// the blocks up to the epoch-finishing one). patterns[i] is the answer pattern of parts[i].
+func (m *Model) FullCeremony(name string, parts []string, patterns []string, evidenceBy []string) Action {
+	var hash, reveal []string
+	for i, p := range parts {
+		hash = append(hash, "cer:hash:"+p+":"+patterns[i])
+		reveal = append(reveal, "cer:short:"+p+":"+patterns[i], "cer:long:"+p+":"+patterns[i])
+	}
+	for _, p := range evidenceBy {
+		reveal = append(reveal, "cer:evidence:"+p+":all")
+	}
+	j := Action{Name: "jump", Jump: 1}
+	h := m.Drive(hash...)
+	r := m.Drive(reveal...)
+	return Action{Name: name, Expand: true, When: []string{" per=0 "}, Script: []Action{j, j, h, j, r, {Name: "epoch", Macro: "epoch"}}}
+}
+
 // Std installs the four standard scenarios (3 genesis families + the rich prefix scenario).
 func (m *Model) Std() {
 	m.Scn, m.Opts = StdScenarios()
@@ -311,11 +376,14 @@ func (m *Model) Singles(expand bool) {
 		m.Acts = append(m.Acts, Action{Name: "1:" + m.Menu[i].Name, Tmpl: []int{i}, Expand: expand})
 	}
 }
-func (m *Model) Pairs() {
+func (m *Model) Pairs() { m.PairsUpTo(0) }
+
+// PairsUpTo adds the ordered pairs as leaf actions enabled in states reached by < maxPath actions (0 = everywhere).
+func (m *Model) PairsUpTo(maxPath int) {
 	for i := range m.Menu {
 		for j := range m.Menu {
 			if i != j {
-				m.Acts = append(m.Acts, Action{Name: "2:" + m.Menu[i].Name + " + " + m.Menu[j].Name, Tmpl: []int{i, j}})
+				m.Acts = append(m.Acts, Action{Name: "2:" + m.Menu[i].Name + " + " + m.Menu[j].Name, Tmpl: []int{i, j}, MaxPath: maxPath})
 			}
 		}
 	}
